@@ -218,9 +218,6 @@ theorem load_emitDP (v : Variant) (st : LState) (d : WDP) (hc : Clean st.cur) :
   · simpa [LState.tables] using ht
   · simp [hl]
 
-/-- the writer's tables after a list of data points -/
-def ensureAll (tb : Tables) (ds : List WDP) : Tables := ds.foldl Tables.ensure tb
-
 theorem load_emitAll (v : Variant) : ∀ (ds : List WDP) (st : LState), Clean st.cur →
     ∃ st', loadFrom v st (emitAll st.tables ds) = .ok st' ∧ st'.tables = ensureAll st.tables ds
       ∧ st'.loaded = st.loaded ++ ds.map WDP.toDP ∧ Clean st'.cur := by
